@@ -5,7 +5,7 @@ fn main() {
     panic::set_hook(Box::new(|_| {}));
     let args: Vec<String> = std::env::args().collect();
     if args.len() > 1 && args[1] == "names" {
-        for n in probe::S_NAMES.iter().chain(probe::V_NAMES.iter()) {
+        for n in probe::S_NAMES.iter().chain(probe::V_NAMES.iter()).chain(probe::more::S_NAMES.iter()).chain(probe::more::V_NAMES.iter()) {
             println!("{}", n);
         }
         return;
@@ -25,6 +25,10 @@ fn main() {
             if let Some(s) = probe::call_s(&n, &a, &b, i, j) {
                 serde_json::json!({ "s": s })
             } else if let Some(v) = probe::call_v(&n, &a, &b, i, j) {
+                serde_json::json!({ "v": v })
+            } else if let Some(s) = probe::more::call_s(&n, &a, &b, i, j) {
+                serde_json::json!({ "s": s })
+            } else if let Some(v) = probe::more::call_v(&n, &a, &b, i, j) {
                 serde_json::json!({ "v": v })
             } else {
                 serde_json::json!({ "error": "unknown" })
